@@ -98,7 +98,7 @@ def gen_cases(rng, tier):
         dom = rng.choice([1, 2, 0xffffffff])
         tid = rng.choice([256, 257, 65535, 300])
         tpl = W.message(dom, 2, W.template_body(tid, ies), seq=rng.getrandbits(32), export_time=rng.getrandbits(32))
-        setup = ["dec new " + mode, "dec pkt " + tpl.hex()]
+        setup = ["dec new " + mode + rng.choice(["", "", " udp"]), "dec pkt " + tpl.hex()]
         usable = [ie for ie in ies if ie.len != 0]
         nrec = rng.randint(1, 3)
         body = valid_data(rng, ies, nrec) if ies else b""
